@@ -171,6 +171,22 @@ func (c *Ctx) collectFuncs() {
 			add(f)
 		}
 	}
+	// methods of every named type of the module, whether or not the type is ever converted to an interface
+	for _, p := range []*packages.Package{c.Log, c.Expr} {
+		for _, nt := range c.namedTypes(p) {
+			if nt.TypeParams().Len() > 0 {
+				continue
+			}
+			for _, tt := range []types.Type{nt, types.NewPointer(nt)} {
+				ms := c.Prog.MethodSets.MethodSet(tt)
+				for i := 0; i < ms.Len(); i++ {
+					if f := c.Prog.MethodValue(ms.At(i)); f != nil && f.Synthetic == "" {
+						add(f)
+					}
+				}
+			}
+		}
+	}
 	sort.Slice(c.Funcs, func(i, j int) bool { return c.Funcs[i].String() < c.Funcs[j].String() })
 }
 
